@@ -181,6 +181,13 @@ def run_case(case, proto, variant):
         f0 = final[0] if final else None
         bad("following-request", f"a plain GET sent after this request shape gave {(f0[0], exc_class(f0[1]) + ': ' + str(f0[1])) if f0 and f0[0] == 'exc' else f0}: "
             f"the shape left the pool / connection in a state that breaks later requests (earlier results: {[(r_[0], exc_class(r_[1]) if r_[0] == 'exc' else r_[1]) for r_ in results]})")
+    else:
+        # ... and it is a request of its own: what the server saw of it names ITS host, whatever the requests before it on the same connection carried
+        fin_auth = [v for c in topo.all_h1_conns() for r_ in c.parser.requests if r_.target.endswith(b"/t/final") for k, v in r_.headers if k.lower() == b"host"]
+        fin_auth += [v for c in topo.all_h2_conns() for sid in c.order if any(k == b":path" and v.endswith(b"/t/final") for k, v in c.streams[sid].headers)
+                     for k, v in c.streams[sid].headers if k in (b":authority", b"host")]
+        if fin_auth != [b"a.example"]:
+            bad("following-request-authority", f"the plain GET that followed reached the server with Host / :authority {fin_auth}, expected [b'a.example'] (it gave no Host header itself)")
     mb, tb = m.encode(), (target_ext if target_ext is not None else path.encode())
     hb = [(k.encode(), v.encode()) for k, v in headers]
     legal = bool(TOKEN_RE.match(mb)) and bool(TARGET_OK.match(tb)) and all(TOKEN_RE.match(k) and FIELD_VALUE_OK.match(v) for k, v in hb)
